@@ -342,6 +342,16 @@ static void families(unsigned long long& unit)
 				if(!(root < hi)) continue;
 				fams.push_back({"pow_p" + mc::dec(p) + "_c1e" + std::to_string(e), [p, c](ld x) { return powl(x, p) - c; }, 0.0, hi, {root}});
 			}
+	// ... and on brackets [10^-k, 10^k] that do not start at the origin (values stay finite: p*k <= 300)
+	for(double p : {0.5, 1.0, 2.0, 3.0, 5.0})
+		for(int k : {8, 10, 15, 20, 30, 60, 100, 150, 300})
+			for(int e : {0, -6, 6, -40})
+			{
+				if(p * k > 300) continue;
+				ld c = powl(10.0L, e), root = powl(c, 1 / (ld)p), lo = powl(10.0L, -k), hi = powl(10.0L, k);
+				if(!(root > lo * 10 && root < hi / 10)) continue;
+				fams.push_back({"pow_p" + mc::dec(p) + "_c1e" + std::to_string(e) + "_decades" + std::to_string(2 * k), [p, c](ld x) { return powl(x, p) - c; }, (double)lo, (double)hi, {root}});
+			}
 	// linear
 	for(double a : {1.0, -3.0, 1e-6, 1e6, -0.75})
 		for(double b : {0.5, -2.0, 1e-3, 3.0})
@@ -431,7 +441,8 @@ static void families(unsigned long long& unit)
 static void diagnostics(unsigned long long& unit)
 {
 	struct Case { std::string name; double fa, fb; };
-	std::vector<Case> cs = {{"both_positive", 1, 2}, {"both_negative", -3, -1e-300}, {"nan_left", NAN, 1}, {"nan_right", -1, NAN}, {"both_nan", NAN, NAN}, {"inf_same_sign", INFINITY, 1}};
+	std::vector<Case> cs = {{"both_positive", 1, 2}, {"both_negative", -3, -1e-300}, {"nan_left", NAN, 1}, {"nan_right", -1, NAN}, {"both_nan", NAN, NAN}, {"inf_same_sign", INFINITY, 1},
+							{"nan_left_zero_right", NAN, 0}, {"zero_left_nan_right", 0, NAN}, {"nan_left_negative_zero_right", NAN, -0.0}, {"both_zero_is_fine_but_nan_is_not", NAN, 1e-300}};
 	for(auto& c : cs)
 		for(int rev = 0; rev < 2; rev++)
 		{
